@@ -8,6 +8,7 @@ import (
 
 	"github.com/xjslang/xjs/ast"
 	"github.com/xjslang/xjs/lexer"
+	"github.com/xjslang/xjs/simhook"
 	"github.com/xjslang/xjs/token"
 )
 
@@ -261,6 +262,7 @@ func (p *Parser) ParseProgram() (*ast.Program, error) {
 // It moves PeekToken to CurrentToken and reads a new token from the lexer into PeekToken.
 // This maintains the one-token lookahead that enables efficient parsing decisions.
 func (p *Parser) NextToken() {
+	simhook.Point(simhook.ParserNextToken)
 	p.CurrentToken = p.PeekToken
 	p.PeekToken = p.lexer.NextToken()
 }
